@@ -11,7 +11,7 @@ import (
 var baseW = map[string]int{
 	"publish": 30, "pull": 25, "pull-due": 8, "ack": 14, "ack-all": 3, "stale": 4, "modack": 8, "jump": 12,
 	"jump-long": 1, "seek-time": 3, "snapshot": 2, "seek-snapshot": 2, "job": 6, "expire-job": 1, "sweep": 3,
-	"delete-sub": 1, "create-sub": 2, "delete-topic": 1, "create-topic": 1, "update-sub": 2, "stream": 3, "bad": 3,
+	"delete-sub": 1, "create-sub": 2, "delete-topic": 1, "create-topic": 1, "update-sub": 2, "stream": 3, "bad": 3, "nack": 3,
 }
 
 func weights(over map[string]int) map[string]int {
@@ -35,6 +35,8 @@ func profiles(prop string) []hist.Profile {
 				Retentions: []time.Duration{0, hour, 10 * min}, Keys: []string{"", "", "k1", "k2"}, W: weights(nil)},
 			{Name: "loss-long", Ops: 220, Topics: 2, Subs: 3, POrdered: 0.3, PFilter: 0.3, PDL: 0.2, PRetry: 0.5,
 				Keys: []string{"", "k1"}, W: weights(map[string]int{"job": 12, "bad": 6})},
+			{Name: "loss-shared-topic", Ops: 110, Topics: 1, Subs: 4, POrdered: 0.2, PFilter: 0.2, PDL: 0, PRetry: 0.5,
+				Keys: []string{"", "k1"}, W: weights(map[string]int{"ack": 20, "snapshot": 6, "seek-snapshot": 8, "seek-time": 6, "delete-topic": 0, "delete-sub": 2, "create-sub": 3})},
 		}
 	case "C02":
 		return []hist.Profile{
@@ -42,17 +44,19 @@ func profiles(prop string) []hist.Profile {
 				Keys: []string{"", "k", "ünï ḱey", "a/b c"}, W: weights(map[string]int{"publish": 35, "pull": 35, "seek-time": 4, "delete-sub": 2, "create-sub": 3, "foreign": 3, "stream": 5})},
 			{Name: "independence", Ops: 120, Topics: 2, Subs: 6, POrdered: 0.3, PFilter: 0.5, PDL: 0.2, PRetry: 0.4, Decoy: true,
 				Keys: []string{"", "k1"}, W: weights(map[string]int{"ack": 18, "modack": 10, "seek-time": 6, "seek-snapshot": 3, "snapshot": 3, "delete-sub": 3, "create-sub": 4, "update-sub": 4, "foreign": 3})},
+			{Name: "independence-shared-topic", Ops: 110, Topics: 1, Subs: 4, POrdered: 0.2, PFilter: 0.3, PDL: 0, PRetry: 0.4, Decoy: true,
+				Keys: []string{"", "k1"}, W: weights(map[string]int{"ack": 20, "modack": 8, "seek-time": 8, "seek-snapshot": 9, "snapshot": 7, "delete-sub": 3, "create-sub": 4, "update-sub": 3, "delete-topic": 0, "foreign": 2})},
 		}
 	case "C03":
 		return []hist.Profile{
 			{Name: "ack", Ops: 120, Topics: 2, Subs: 3, POrdered: 0.35, PFilter: 0.3, PDL: 0.35, PRetry: 0.6, Decoy: true,
 				Keys: []string{"", "k1", "k2"}, MaxAttempt: []int32{2, 3, 5},
-				W: weights(map[string]int{"ack": 22, "stale": 14, "modack": 8, "pull-due": 12, "sweep": 5, "job": 8, "seek-time": 1, "seek-snapshot": 0, "snapshot": 0, "stream": 6, "foreign": 3, "delete-sub": 0, "delete-topic": 0})},
+				W: weights(map[string]int{"ack": 22, "stale": 14, "modack": 8, "nack": 8, "pull-due": 12, "sweep": 5, "job": 8, "seek-time": 1, "seek-snapshot": 0, "snapshot": 0, "stream": 6, "foreign": 3, "delete-sub": 0, "delete-topic": 0})},
 		}
 	case "C04":
 		return []hist.Profile{
 			{Name: "lease", Ops: 140, Topics: 1, Subs: 3, POrdered: 0.1, PFilter: 0.1, PDL: 0, PRetry: 0.85,
-				Keys: []string{""}, W: weights(map[string]int{"publish": 12, "pull": 22, "pull-due": 30, "ack": 4, "ack-all": 0, "modack": 16, "jump": 16, "jump-long": 0, "seek-time": 0, "seek-snapshot": 0, "snapshot": 0, "delete-sub": 0, "delete-topic": 0, "create-topic": 0, "update-sub": 1, "sweep": 0, "job": 2, "stream": 2})},
+				Keys: []string{""}, W: weights(map[string]int{"publish": 12, "pull": 22, "pull-due": 30, "ack": 4, "ack-all": 0, "modack": 16, "nack": 10, "jump": 16, "jump-long": 0, "seek-time": 0, "seek-snapshot": 0, "snapshot": 0, "delete-sub": 0, "delete-topic": 0, "create-topic": 0, "update-sub": 1, "sweep": 0, "job": 2, "stream": 2})},
 			{Name: "lease-default", Ops: 160, Topics: 1, Subs: 2, PRetry: 0,
 				Keys: []string{""}, W: weights(map[string]int{"publish": 6, "pull": 10, "pull-due": 40, "ack": 2, "ack-all": 0, "modack": 10, "jump": 10, "jump-long": 0, "seek-time": 0, "seek-snapshot": 0, "snapshot": 0, "delete-sub": 0, "delete-topic": 0, "create-topic": 0, "update-sub": 0, "sweep": 0, "job": 0, "stream": 0, "bad": 1})},
 		}
@@ -72,7 +76,7 @@ func profiles(prop string) []hist.Profile {
 		return []hist.Profile{
 			{Name: "deadletter", Ops: 120, Topics: 3, Subs: 4, POrdered: 0.15, PFilter: 0.35, PDL: 0.7, PRetry: 0.8,
 				Keys: []string{"", "", "k1"}, MaxAttempt: []int32{1, 2, 3, 5},
-				W: weights(map[string]int{"publish": 22, "pull": 22, "pull-due": 22, "ack": 6, "modack": 10, "sweep": 10, "jump": 10, "seek-time": 0, "seek-snapshot": 0, "snapshot": 0, "delete-topic": 2, "create-topic": 2, "delete-sub": 2, "create-sub": 3, "stream": 3})},
+				W: weights(map[string]int{"publish": 22, "pull": 22, "pull-due": 22, "ack": 8, "modack": 10, "nack": 12, "stale": 4, "sweep": 10, "jump": 10, "seek-time": 0, "seek-snapshot": 0, "snapshot": 0, "delete-topic": 2, "create-topic": 2, "delete-sub": 2, "create-sub": 3, "stream": 3})},
 		}
 	case "C13":
 		return []hist.Profile{
@@ -85,7 +89,7 @@ func profiles(prop string) []hist.Profile {
 			{Name: "retention", Ops: 110, Topics: 2, Subs: 4, POrdered: 0.2, PFilter: 0.2, PDL: 0.1, PRetry: 0.5,
 				Retentions: []time.Duration{10 * sec, 10 * min, 0, 31 * day}, TTLs: []time.Duration{min, day, 0, 365 * day},
 				Keys: []string{"", "k1"},
-				W: weights(map[string]int{"publish": 22, "pull": 24, "pull-due": 6, "ack": 8, "jump": 16, "jump-long": 6, "expire-job": 10, "update-ttl": 4, "set-delay": 6, "seek-time": 3, "job": 6, "create-sub": 5})},
+				W:    weights(map[string]int{"publish": 22, "pull": 24, "pull-due": 6, "ack": 8, "jump": 16, "jump-long": 6, "expire-job": 10, "update-ttl": 4, "set-delay": 6, "seek-time": 3, "job": 6, "create-sub": 5})},
 		}
 	case "C15":
 		return []hist.Profile{
